@@ -91,12 +91,12 @@ def truncate(path, cls):
         f.write(data[:cut])
 
 
-def run_history(start, dt, kinds, begin_settings, compress, crash_k, trunc, two_instances):
+def run_history(start, dt, kinds, begin_settings, compress, crash_k, trunc, two_instances, tear="main"):
     """crash_k: index of the request after which the server is lost (0 = right after begin-session).
     trunc: None or a truncation class applied to the file written by request crash_k."""
     from BPTK_Py.externalstateadapter import FileAdapter
     from fractions import Fraction
-    stop = float(Fraction(str(start)) + 8 * Fraction(str(dt)))
+    stop = float(Fraction(str(start)) + max(8, len(kinds) + 4) * Fraction(str(dt)))
     sd = os.path.join(core.scratch_dir(), "c20_%d" % os.getpid())
     viol = []
     label = "start=%r dt=%r steps=%r begin-settings=%s compress=%s crash-after=%d trunc=%s two=%s" % (start, dt, kinds, begin_settings, compress, crash_k, trunc, two_instances)
@@ -128,13 +128,13 @@ def run_history(start, dt, kinds, begin_settings, compress, crash_k, trunc, two_
         if crash_k == 0 and not os.path.exists(f):
             return []          # nothing externalised yet: the session is not covered by the statement
         if trunc is not None:
-            truncate(f, trunc)
+            truncate(f if tear == "main" else os.path.join(sd, other + ".json"), trunc)
         del app, client           # the process is gone
         try:
             app2, client2 = srv.make_server(factory, adapter=FileAdapter(compress, sd))
         except Exception as e:
             return [("constructor-raises/%s" % type(e).__name__, "%s: %r" % (label, e))]
-        if two_instances:
+        if two_instances and tear == "main":
             # the intact instance continues whatever happened to the other file
             solo_app, solo_client = srv.make_server(factory)
             sid = srv.start_instance(solo_client)
@@ -145,7 +145,7 @@ def run_history(start, dt, kinds, begin_settings, compress, crash_k, trunc, two_
             if g != w:
                 viol.append(("intact-instance-affected", "%s: the other instance's next step returns %r, uninterrupted %r" % (label, str(g)[:200], str(w)[:200])))
         rest = [issue(client2, iid, r) for r in reqs[crash_k:]]
-        torn = trunc is not None and trunc != "complete"
+        torn = trunc is not None and trunc != "complete" and tear == "main"
         if torn and all(st >= 400 for st, _ in rest):
             return viol      # the damaged file cost this one instance: allowed
         for j, (g, w) in enumerate(zip(rest, want[crash_k:])):
@@ -190,6 +190,14 @@ def jobs(tier):
                     for tr in TRUNC:
                         for two in (False, True):
                             out.append((st, dt, list(kinds), True, compress, k, tr, two))
+                        # the *other* instance's file is the damaged one: this session continues as if nothing happened
+                        out.append((st, dt, list(kinds), True, compress, k, tr, True, "other"))
+    # step times whose text order differs from their numeric order: negative times, more than ten steps
+    for (st, dt, n) in ((-2, 1, 3), (-1, 0.5, 4), (0, 1, 12)):
+        for kinds in (["v1"] + ["nobody"] * (n - 2) + ["v2p"], ["nobody", "v1"] + ["empty"] * (n - 2)):
+            for compress in (False, True):
+                for k in sorted(set([1, 2, n - 1, n])):
+                    out.append((st, dt, list(kinds), False, compress, k, None, False))
     return out
 
 
@@ -214,7 +222,7 @@ def run(ctx):
                 if j[4]:
                     feat.append("compress")
                 if j[6]:
-                    feat.append("torn:" + j[6])
+                    feat.append("torn:" + j[6] + ("(other file)" if len(j) > 8 and j[8] == "other" else ""))
                 ctx.violation("C20/%s/%s" % (clause, "+".join(feat) or "plain"), {"job": list(j)}, detail)
     ctx.finish({
         "evaluations": len(js), "distinct_nontrivial": len(js), "crash_point_cases": crash_points, "torn_write_cases": torn,
